@@ -747,6 +747,15 @@ pub fn sc_mode(cfg: Cfg, rng: &mut Prng, sleep: bool, from_mode: u8) -> Scenario
     s
 }
 
+pub fn sc_base(cfg: Cfg, rng: &mut Prng, tx: usize, rx: usize) -> Scenario {
+    let p = prior(cfg.chip, rng, 0x81, 0x12);
+    let mut s = base("SetBufferBaseAddress", cfg, p, format!("tx{}/rx{}/{}", tx / 64, rx / 64, if tx == rx { "equal" } else { "split" }), if tx == rx { "equal".into() } else { "split".into() });
+    s.sig_xor = false;
+    s.ours = vec![Step::Base(tx, rx)];
+    s.refs = vec![RStep::Raw(0x0E, tx as u8), RStep::Raw(0x0F, rx as u8)];
+    s
+}
+
 pub fn sc_freq(cfg: Cfg, rng: &mut Prng, f: u32) -> Scenario {
     let p = prior(cfg.chip, rng, 0x81, 0x12);
     let inb = if cfg.chip.in_band(f) { "inband" } else { "outband" };
